@@ -144,6 +144,8 @@ V('v02.s1', 'C02', 'S', None, 'np.absolute, flipped comparison',
 V('v02.s2', 'C02', 'S', None, 'previous saved with np.array()',
   (MODELS, ST, 'previous_values = current_values.copy()', 'previous_values = np.array(current_values)'))
 V('v02.s3', 'C02', 'S', None, 'affine rewrite of the loop bound', (MODELS, ST, 'range(1, max_iter + 1)', 'range(1, 1 + max_iter)'))
+V('v02.s5', 'C02', 'S', None, 'model convergence stated through a negation (NaNs cannot reach the test: both non-finite checks come first)',
+  (MODELS, ST, 'if np.all(np.abs(diff) < tol):', 'if not np.any(np.abs(diff) >= tol):'))
 V('v02.s4', 'C02', 'S', None, 'gate as negated >=', (MODELS, ST, 'if iteration < min_iter:', 'if not iteration >= min_iter:'))
 V('v02.s5', 'C02', 'S', None, 'offset bound rewritten', (MODELS, ST, 'if t_check + offset >= len(self.span):', 'if t_check + offset > len(self.span) - 1:'))
 V('v02.s6', 'C02', 'S', None, 'method-form reduction', (MODELS, ST, 'np.all(np.abs(diff) < tol)', '(np.abs(diff) < tol).all()'))
@@ -1105,6 +1107,8 @@ V('v07.s1', 'C07', 'S', None, 'skip code renumbered consistently on both sides',
   (FORTRAN, f'{FE_}.solve_t', "elif error_code == 22 and errors == 'skip':", "elif error_code == 25 and errors == 'skip':"))
 V('v08.16', 'C08', 'F', 'C08.R3', 'movement computed over the submodels only (seeded C08/1)',
   (LINKERS, LT, 'diff = {k: current_values[k] - previous_values[k] for k in current_values}', 'diff = {k: current_values[k] - previous_values[k] for k in submodels}'))
+V('v08.17', 'C08', 'F', 'C08.R3', 'linker convergence stated through a negation: a NaN movement counts as settled',
+  (LINKERS, LT, 'if all(np.all(np.abs(v) < tol) for v in diff.values()):', 'if not any(np.any(np.abs(v) >= tol) for v in diff.values()):'))
 V('v08.s3', 'C08', 'S', None, 'movement computed over previous_values.keys()',
   (LINKERS, LT, 'diff = {k: current_values[k] - previous_values[k] for k in current_values}', 'diff = {k: current_values[k] - previous_values[k] for k in previous_values.keys()}'))
 V('v07.12', 'C07', 'F', 'C07.R5', 'revert F19: error code stays -1 when no pass runs',
